@@ -488,6 +488,7 @@ def main(tier):
     tlsrogue.genuine_dfs(ctx)           # repetitions (each message up to 2x), prefix-tree search on the real client
     tlsrogue.rogue_content_dfs(ctx)     # rogue server varying ServerHello / EncryptedExtensions content
     tlsrogue.key_release_oracle(ctx)    # every traffic secret only while processing its authenticating message
+    tlsrogue.refusal_oracle(ctx)        # a forged Finished / CertificateVerify is refused and changes nothing
     quic_app_data_before_finished(ctx)  # lost client Finished, 1-RTT packet arrives first
     quic_level_flights(ctx, thorough, rng.make("c11-quic"))
     ctx.notes["correspondence_mismatches"] = bad
@@ -519,7 +520,7 @@ def replay(path):
     if kind == "quic-early-1rtt":
         quic_app_data_before_finished(ctx, seeds=(rep["seed"],))
         ws = ctx.witnesses
-    elif kind in ("rogue", "genuine", "rogue-content", "key-release"):
+    elif kind in ("rogue", "genuine", "rogue-content", "key-release", "refusal"):
         ws = tlsrogue.replay(rep)
         if d.get("signature", {}).get("oracle") == "legal-flight-refused" and not _completes(rep):
             ws = [{"what": d["what"]}]
